@@ -115,6 +115,11 @@ func (d *decoder) processHalftoneRegion(hdr *segmentHeader, data []byte) error {
 	if err != nil {
 		return err
 	}
+	// filling the region and compositing it onto the page costs one
+	// operation per pixel, whether or not any pattern is placed
+	if err := d.pool.chargeWork(int64(rsi.Width) * int64(rsi.Height)); err != nil {
+		return err
+	}
 	if hdefPixel {
 		for i := range bm.Pix {
 			bm.Pix[i] = 0xFF
